@@ -278,6 +278,9 @@ pub enum JoinShip {
     BroadcastRight,
     /// KeyedStream::join / join_outer after two group_by
     Keyed,
+    /// KeyedStream::join of a stream partitioned by group_by with one partitioned by the
+    /// two-phase group_by_reduce (both must put equal keys on the same replica)
+    KeyedMixed,
 }
 
 #[derive(Clone, Copy, Debug, Serialize, Deserialize, PartialEq, Eq, Hash)]
@@ -316,6 +319,8 @@ pub enum UOp {
     CountWindow { n: usize, s: usize, exact: bool, content: bool },
     MapMemo { m: i64 },
     Replay { rounds: usize, body: Vec<UOp>, stop_m: i64, stop_r: i64 },
+    /// split(2), filter one branch (v % m == 0 dropped), zip the two branches: min(|a|,|b|) pairs.
+    SplitZip { m: i64, filter_left: bool },
     /// Change the batch mode of the current block onwards.
     Batch(BatchSpec),
 }
